@@ -46,36 +46,67 @@ fn summary(s: &CpcSketch) -> Ob {
 }
 
 impl Fam {
-    /// C14: deserialize untrusted bytes; a value returned as Ok is dumped and then used like any sketch
+    /// C14: deserialize untrusted bytes.  `[0]` = Err.  For a value returned as Ok:
+    /// `[1, wrapper_agrees, updates_ok, union_ok] ++ float-free dump`, where
+    ///  - wrapper_agrees: CpcWrapper::new on the same bytes is Ok and reports the sketch's lg_k, is_empty, estimate and
+    ///    2-sigma bounds bit for bit;
+    ///  - updates_ok: the fixed pair sequence `use_pairs(lg_k)` (hook), estimate, bounds, validate, serialize + deserialize
+    ///    ran without panic (inner catch_unwind: the oracle decides with the model whether a panic was allowed, i.e. whether
+    ///    the sequence leaves the sketch's domain: offset > 56 or surprising-value table capacity);
+    ///  - union_ok: a union at the sketch's lg_k of the accepted sketch and its updated copy, to_sketch, validate.
     fn deser_and_use(&self, bytes: &[u8]) -> Ob {
+        use std::panic::{catch_unwind, AssertUnwindSafe};
         match CpcSketch::deserialize_with_seed(bytes, self.seed) {
-            Err(_) => vec![0],
+            Err(_) => vec![0, datasketches::cpc::CpcWrapper::new(bytes).is_err() as i128],
             Ok(t) => {
-                let mut ob: Ob = vec![1];
-                ob.extend(dumpnf(&t.verif_state()));
-                let mut u = t.clone();
-                let _ = u.estimate();
-                let _ = u.lower_bound(datasketches::common::NumStdDev::Two);
-                // operations that build the K x 64 bit matrix (8 K bytes) are legitimate but would be charged to the
-                // parser's allocation budget: only for lg_k <= 16
+                let two = datasketches::common::NumStdDev::Two;
+                let wrapper_agrees = match datasketches::cpc::CpcWrapper::new(bytes) {
+                    Ok(w) => {
+                        w.lg_k() == t.lg_k()
+                            && w.is_empty() == t.is_empty()
+                            && crate::fbits(w.estimate()) == crate::fbits(t.estimate())
+                            && crate::fbits(w.lower_bound(two)) == crate::fbits(t.lower_bound(two))
+                            && crate::fbits(w.upper_bound(two)) == crate::fbits(t.upper_bound(two))
+                    }
+                    Err(_) => false,
+                };
+                // matrix-building operations are charged to the parser's allocation budget: only for lg_k <= 16
                 let small = t.lg_k() <= 16;
-                if small {
-                    let _ = u.validate();
-                    let _ = u.verif_bit_matrix();
-                }
-                for i in 0..40i64 {
-                    u.update(i);
-                }
-                let again = u.serialize();
-                let _ = CpcSketch::deserialize_with_seed(&again, self.seed).expect("round trip of an accepted image");
-                let mut un = CpcUnion::with_seed(t.lg_k(), self.seed);
-                un.update(&t);
-                un.update(&u);
-                let r = un.to_sketch();
-                if small {
-                    let _ = r.validate();
-                }
-                let _ = datasketches::cpc::CpcWrapper::new(bytes).map(|w| w.estimate());
+                let seed = self.seed;
+                let k = 1u64 << t.lg_k();
+                let mut u = t.clone();
+                let updates_ok = catch_unwind(AssertUnwindSafe(|| {
+                    for i in 0..40u64 {
+                        let row = (i * 37 + 11) % k;
+                        let col = if i % 4 == 3 { 63 - (i % 5) } else { (i * 5) % 9 };
+                        let rc = ((row << 6) | col) as u32;
+                        if rc != u32::MAX {
+                            u.verif_row_col_update(rc);
+                        }
+                    }
+                    let _ = u.estimate();
+                    let _ = u.lower_bound(two);
+                    if small {
+                        assert!(u.validate());
+                    }
+                    let again = u.serialize();
+                    let back = CpcSketch::deserialize_with_seed(&again, seed).expect("round trip of an updated accepted image");
+                    assert_eq!(back.num_coupons(), u.num_coupons());
+                }))
+                .is_ok();
+                let second = if updates_ok { u.clone() } else { t.clone() };
+                let union_ok = catch_unwind(AssertUnwindSafe(|| {
+                    let mut un = CpcUnion::with_seed(t.lg_k(), seed);
+                    un.update(&t);
+                    un.update(&second);
+                    let r = un.to_sketch();
+                    if small {
+                        assert!(r.validate());
+                    }
+                }))
+                .is_ok();
+                let mut ob: Ob = vec![1, wrapper_agrees as i128, updates_ok as i128, union_ok as i128];
+                ob.extend(dumpnf(&t.verif_state()));
                 ob
             }
         }
@@ -182,7 +213,7 @@ impl Family for Fam {
                 self.sks.insert(a[0], CpcSketch::with_seed(a[1] as u8, self.seed));
                 vec![]
             }
-            11 | 12 | 13 | 14 | 15 | 16 | 17 => {
+            11 | 12 | 13 | 14 | 15 | 16 | 17 | 24 => {
                 let Some(s) = self.sks.get_mut(&a[0]) else { return vec![PANIC] };
                 match code {
                     11 => {
@@ -197,6 +228,18 @@ impl Family for Fam {
                     14 => vec![s.validate() as i128],
                     15 => s.verif_bit_matrix().iter().map(|w| *w as i128).collect(),
                     17 => s.serialize().iter().map(|b| *b as i128).collect(),
+                    24 => {
+                        // the slot's sketch (possibly a union result) is written and read back by the crate itself
+                        let bytes = s.serialize();
+                        match CpcSketch::deserialize_with_seed(&bytes, self.seed) {
+                            Err(_) => vec![0],
+                            Ok(t) => {
+                                let same = t.num_coupons() == s.num_coupons()
+                                    && (s.lg_k() > 16 || t.verif_bit_matrix() == s.verif_bit_matrix());
+                                vec![same as i128]
+                            }
+                        }
+                    }
                     _ => {
                         let bytes = s.serialize();
                         let t = CpcSketch::deserialize_with_seed(&bytes, self.seed).expect("round trip");
